@@ -5,6 +5,7 @@ import (
 	"encoding/hex"
 	"errors"
 	"fmt"
+	"runtime"
 	"sort"
 	"strings"
 	"time"
@@ -28,6 +29,14 @@ func Run(p *Plan, oracles func(*VM) []Oracle, trace bool) *Result {
 	}
 	states := map[string]bool{}
 	berr, simNs := sim.Bubble(func() {
+		defer func() {
+			// a panic on the scheduler goroutine is a harness bug, never a verdict
+			if r := recover(); r != nil {
+				buf := make([]byte, 1<<14)
+				n := runtime.Stack(buf, false)
+				res.Internal = fmt.Sprintf("harness panic: %v\n%s", r, buf[:n])
+			}
+		}()
 		for i := range p.Ops {
 			m.cur = i
 			rec := m.step(i, &p.Ops[i])
